@@ -74,6 +74,8 @@ pub struct BuildB {
 #[derive(Clone, Copy, Debug, PartialEq, Eq, Hash)]
 pub enum Pre {
     Absent,
+    /// a zero-length file (how the lifecycle hands over the build plan path)
+    Empty,
     Sentinel,
     Directory,
 }
@@ -91,7 +93,9 @@ pub struct Row {
     platform_present: bool,
     platform_env_not_utf8: bool,
     buildpack_plan: u8, // 0 valid, 1 missing, 2 malformed, 3 unknown key
-    store_in: u8,       // 0 missing, 1 valid, 2 malformed
+    store_in: u8,       // 0 missing, 1 valid, 2 malformed, 3 not UTF-8
+    /// value of CNB_TARGET_OS when present
+    target_os: u8, // 0 linux, 1 windows, 2 darwin, 3 empty string
 }
 
 fn base_row() -> Row {
@@ -107,6 +111,7 @@ fn base_row() -> Row {
         platform_env_not_utf8: false,
         buildpack_plan: 0,
         store_in: 0,
+        target_os: 0,
     }
 }
 
@@ -124,7 +129,7 @@ fn sbom_list() -> impl Strategy<Value = Vec<(u8, Vec<u8>)>> {
 }
 
 fn pre_strategy() -> impl Strategy<Value = Pre> {
-    prop_oneof![5 => Just(Pre::Absent), 4 => Just(Pre::Sentinel), 1 => Just(Pre::Directory)]
+    prop_oneof![4 => Just(Pre::Absent), 3 => Just(Pre::Empty), 4 => Just(Pre::Sentinel), 1 => Just(Pre::Directory)]
 }
 
 fn row_strategy() -> impl Strategy<Value = Row> {
@@ -138,9 +143,9 @@ fn row_strategy() -> impl Strategy<Value = Row> {
         detect,
         build,
         proptest::collection::vec(pre_strategy(), 9),
-        (proptest::bool::weighted(0.9), proptest::bool::weighted(0.05), prop_oneof![8 => Just(0u8), 1 => Just(1u8), 1 => Just(2u8), 1 => Just(3u8)], prop_oneof![4 => Just(0u8), 4 => Just(1u8), 1 => Just(2u8), 1 => Just(3u8)]),
+        (proptest::bool::weighted(0.9), proptest::bool::weighted(0.05), prop_oneof![8 => Just(0u8), 1 => Just(1u8), 1 => Just(2u8), 1 => Just(3u8)], prop_oneof![4 => Just(0u8), 4 => Just(1u8), 1 => Just(2u8), 1 => Just(3u8)], prop_oneof![3 => Just(0u8), 2 => Just(1u8), 1 => Just(2u8), 1 => Just(3u8)]),
     )
-        .prop_map(|((exe, argc_raw, argc_right), bp, envp, detect, build, pre, (platform_present, platform_env_not_utf8, buildpack_plan, store_in))| {
+        .prop_map(|((exe, argc_raw, argc_right), bp, envp, detect, build, pre, (platform_present, platform_env_not_utf8, buildpack_plan, store_in, target_os))| {
             let right = if exe == 1 { 3 } else { 2 };
             Row {
                 exe,
@@ -154,6 +159,7 @@ fn row_strategy() -> impl Strategy<Value = Row> {
                 platform_env_not_utf8,
                 buildpack_plan,
                 store_in,
+                target_os,
             }
         })
 }
@@ -161,6 +167,7 @@ fn row_strategy() -> impl Strategy<Value = Row> {
 fn pre_json(p: Pre) -> &'static str {
     match p {
         Pre::Absent => "absent",
+        Pre::Empty => "empty",
         Pre::Sentinel => "sentinel",
         Pre::Directory => "directory",
     }
@@ -177,7 +184,7 @@ fn row_json(r: &Row) -> Value {
         "detect": match &r.detect { DetectB::Pass => json!("pass"), DetectB::Fail => json!("fail"), DetectB::Error => json!("error"), DetectB::PassPlan(p) => json!({"pass_plan": c07::plan_ops_json(p)}) },
         "build": {"kind": r.build.kind, "launch": r.build.launch.as_ref().map(|l| c07::launch_ops_json(l)), "store": r.build.store.as_ref().map(TV::to_json), "build_sboms": sboms_json(&r.build.build_sboms), "launch_sboms": sboms_json(&r.build.launch_sboms)},
         "pre": r.pre.iter().map(|p| pre_json(*p)).collect::<Vec<_>>(),
-        "platform_present": r.platform_present, "platform_env_not_utf8": r.platform_env_not_utf8, "buildpack_plan": r.buildpack_plan, "store_in": r.store_in,
+        "platform_present": r.platform_present, "platform_env_not_utf8": r.platform_env_not_utf8, "buildpack_plan": r.buildpack_plan, "store_in": r.store_in, "target_os": r.target_os,
     })
 }
 
@@ -188,6 +195,7 @@ fn sboms_from_json(v: &Value) -> Vec<(u8, Vec<u8>)> {
 fn row_from_json(v: &Value) -> Row {
     let pre = |s: &Value| match s.as_str().unwrap() {
         "absent" => Pre::Absent,
+        "empty" => Pre::Empty,
         "sentinel" => Pre::Sentinel,
         _ => Pre::Directory,
     };
@@ -211,6 +219,7 @@ fn row_from_json(v: &Value) -> Row {
         platform_env_not_utf8: v["platform_env_not_utf8"].as_bool().unwrap(),
         buildpack_plan: v["buildpack_plan"].as_u64().unwrap() as u8,
         store_in: v["store_in"].as_u64().unwrap() as u8,
+        target_os: v["target_os"].as_u64().unwrap_or(0) as u8,
     }
 }
 
@@ -231,6 +240,7 @@ enum Expect {
     /// never reaches detect/build code, never exits 0 (nor 100 when named detect); error handler at most once
     NoReach,
     /// as NoReach, but reaching the code and behaving normally is acceptable as well (variables the spec calls optional)
+    #[allow(dead_code)]
     NoReachOrNormal,
     /// an error after dispatch: error handler exactly once, exit not 0 (and not 100); `reached` = buildpack code ran
     Error { reached: bool },
@@ -258,8 +268,9 @@ fn expectation(r: &Row) -> Expect {
     if !r.env_present[1] || !r.env_present[2] {
         return Expect::NoReach;
     }
+    // libcnb documents CNB_TARGET_DISTRO_NAME/VERSION as mandatory (for every target OS)
     if !r.env_present[4] || !r.env_present[5] {
-        return if input_error { Expect::NoReach } else { Expect::NoReachOrNormal };
+        return Expect::NoReach;
     }
     if input_error {
         return Expect::Error { reached: false };
@@ -346,6 +357,9 @@ fn check_row(ctx: &Ctx, scratch: &Path, r: &Row) -> Check {
         }
         match r.pre[i] {
             Pre::Absent => {}
+            // an empty store.toml is not a valid store document: the empty pre-state applies to the other outputs only
+            Pre::Empty if i == 2 => {}
+            Pre::Empty => std::fs::write(p, b"").unwrap(),
             // store.toml is an input as well: its sentinel has to be a valid store document
             Pre::Sentinel => std::fs::write(p, if i == 2 { &b"[metadata]\nsentinel = \"pre-existing store\"\n"[..] } else { SENTINEL }).unwrap(),
             Pre::Directory => std::fs::create_dir_all(p).unwrap(),
@@ -359,7 +373,12 @@ fn check_row(ctx: &Ctx, scratch: &Path, r: &Row) -> Check {
         vec![d.platform.clone().into(), d.plan.clone().into(), "extra1".into(), "extra2".into(), "extra3".into()]
     };
     let args: Vec<OsString> = all_args.into_iter().take(r.argc).collect();
-    let env: Vec<(OsString, OsString)> = bprun::full_env(&d).into_iter().enumerate().filter(|(i, _)| r.env_present[*i]).map(|(_, kv)| kv).collect();
+    let env: Vec<(OsString, OsString)> = bprun::full_env(&d)
+        .into_iter()
+        .enumerate()
+        .filter(|(i, _)| r.env_present[*i])
+        .map(|(i, kv)| if i == 1 { (kv.0, OsString::from(["linux", "windows", "darwin", ""][r.target_os as usize % 4])) } else { kv })
+        .collect();
     let script = json!({
         "detect": match &r.detect { DetectB::Pass => json!("pass"), DetectB::Fail => json!("fail"), DetectB::Error => json!("error"), DetectB::PassPlan(p) => json!({"pass_plan": c07::plan_ops_json(p)}) },
         "build": {"kind": match r.build.kind { 0 => "ok", 1 => "error", _ => "layer_error" }, "launch": r.build.launch.as_ref().map(|l| c07::launch_ops_json(l)), "store": r.build.store.as_ref().map(TV::to_json), "build_sboms": sboms_json(&r.build.build_sboms), "launch_sboms": sboms_json(&r.build.launch_sboms)},
@@ -512,12 +531,23 @@ fn single_deviation_rows() -> Vec<Row> {
             rows.push(r);
         }
         for i in 0..6 {
-            let mut r = base.clone();
-            r.env_present[i] = false;
-            rows.push(r);
+            for os in 0..4 {
+                let mut r = base.clone();
+                r.env_present[i] = false;
+                r.target_os = os;
+                rows.push(r);
+            }
         }
-        for detect in [DetectB::Pass, DetectB::Fail, DetectB::Error, DetectB::PassPlan(vec![c07::BOp::Provides("x".into()), c07::BOp::Or, c07::BOp::Requires("y".into(), None)])] {
-            for pre in [Pre::Absent, Pre::Sentinel, Pre::Directory] {
+        for detect in [
+            DetectB::Pass,
+            DetectB::Fail,
+            DetectB::Error,
+            DetectB::PassPlan(vec![c07::BOp::Provides("x".into()), c07::BOp::Or, c07::BOp::Requires("y".into(), None)]),
+            // only alternatives: the top-level group is empty
+            DetectB::PassPlan(vec![c07::BOp::Or, c07::BOp::Provides("x".into()), c07::BOp::Or, c07::BOp::Requires("y".into(), None)]),
+            DetectB::PassPlan(vec![]),
+        ] {
+            for pre in [Pre::Absent, Pre::Empty, Pre::Sentinel, Pre::Directory] {
                 let mut r = base.clone();
                 r.detect = detect.clone();
                 r.pre[0] = pre;
@@ -526,7 +556,7 @@ fn single_deviation_rows() -> Vec<Row> {
         }
         // every subset of {launch, store, build sboms, launch sboms} x pre-existing state of all outputs
         for mask in 0..16u8 {
-            for pre in [Pre::Absent, Pre::Sentinel] {
+            for pre in [Pre::Absent, Pre::Empty, Pre::Sentinel] {
                 let mut r = base.clone();
                 r.build.launch = if mask & 1 != 0 { Some(vec![]) } else { None };
                 r.build.store = if mask & 2 != 0 { Some(TV::table(vec![("k", TV::s("v"))])) } else { None };
@@ -604,8 +634,8 @@ fn classify(ctx: &Ctx, r: &Row) {
 }
 
 pub fn run(ctx: &Ctx) {
-    ctx.set_rule("rows of the product: executable name {detect, build, vbp, detect.sh, Build} x argument count 0..5 x buildpack.toml {api 0.10, 00.010, 0.9, 0.11, 1, 0.10.0, non-string api, api missing, malformed, file missing, api ok but rest invalid} x presence of each of CNB_BUILDPACK_DIR, CNB_TARGET_OS/ARCH/ARCH_VARIANT/DISTRO_NAME/DISTRO_VERSION x scripted behaviour (detect: pass, pass+generated plan, fail, error; build: every subset of {launch, store, build SBOM formats, launch SBOM formats}, buildpack error, layer error from a real failing layer request) x pre-existing output files {absent, sentinel bytes, a directory in the way} x inputs (platform dir missing, non-UTF-8 platform env file, buildpack plan missing/malformed/unknown key, store.toml missing/valid/malformed/not UTF-8), each executed as a real process through a symlink. All single-dimension deviations from the all-valid rows are enumerated exhaustively, the rest of the product is sampled. Oracle: independent decision table over exit code, marker files written on entering detect/build/on_error, output files decoded by Python tomllib, and a snapshot differential of the scenario directory. Non-trivial: the row reaches buildpack code, or differs from the all-valid row in exactly one dimension; distinct = hash of the row.");
-    ctx.assume("missing CNB_TARGET_DISTRO_NAME/VERSION (optional in the spec, mandatory in libcnb): either not reaching buildpack code or behaving as if present is accepted");
+    ctx.set_rule("rows of the product: executable name {detect, build, vbp, detect.sh, Build} x argument count 0..5 x buildpack.toml {api 0.10, 00.010, 0.9, 0.11, 1, 0.10.0, non-string api, api missing, malformed, file missing, api ok but rest invalid} x presence of each of CNB_BUILDPACK_DIR, CNB_TARGET_OS/ARCH/ARCH_VARIANT/DISTRO_NAME/DISTRO_VERSION x scripted behaviour (detect: pass, pass+generated plan, fail, error; build: every subset of {launch, store, build SBOM formats, launch SBOM formats}, buildpack error, layer error from a real failing layer request) x pre-existing output files {absent, zero-length, sentinel bytes, a directory in the way} x CNB_TARGET_OS in {linux, windows, darwin, ''} x inputs (platform dir missing, non-UTF-8 platform env file, buildpack plan missing/malformed/unknown key, store.toml missing/valid/malformed/not UTF-8), each executed as a real process through a symlink. All single-dimension deviations from the all-valid rows are enumerated exhaustively, the rest of the product is sampled. Oracle: independent decision table over exit code, marker files written on entering detect/build/on_error, output files decoded by Python tomllib, and a snapshot differential of the scenario directory. Non-trivial: the row reaches buildpack code, or differs from the all-valid row in exactly one dimension; distinct = hash of the row.");
+    ctx.assume("CNB_TARGET_DISTRO_NAME/VERSION count as mandatory environment (libcnb documents them as mandatory although the spec calls them optional), for every value of CNB_TARGET_OS");
     ctx.assume("feature `trace` off; argv and paths are UTF-8");
     let scratch = Scratch::new("c05");
     for (_p, v) in ctx.regress_files() {
